@@ -46,6 +46,9 @@ def calls_with_names(tree):
 
 def literal(node):
     """(True, value) if node is a literal Python can evaluate statically, else (False, None)."""
+    # ast.literal_eval also accepts the call set(): a call is not a literal (the name may be rebound)
+    if any(isinstance(n, ast.Call) for n in ast.walk(node)):
+        return False, None
     try:
         return True, ast.literal_eval(node)
     except Exception:
